@@ -32,8 +32,20 @@ func radixAgreement(ctx *core.Ctx, fns []*ssa.Function, pos func(ssa.Instruction
 			case "strconv.ParseInt", "strconv.ParseUint", "strconv.FormatInt", "strconv.FormatUint":
 				idx = 1
 			}
+			if full == "strconv.Atoi" {
+				// Atoi reads a SIGNED, machine-width int: an op id is an unsigned 64-bit
+				// number, so valid ids from 2^63 (2^31 on 32-bit) are refused
+				sites = append(sites, site{fn, c.Instr.(ssa.Instruction), "Atoi", 0, false})
+				continue
+			}
 			if idx < 0 {
 				continue
+			}
+			if full == "strconv.ParseInt" || full == "strconv.ParseUint" {
+				if w, isW := ssax.ConstInt(c.Args()[2]); !isW || w != 64 {
+					sites = append(sites, site{fn, c.Instr.(ssa.Instruction), strings.TrimPrefix(full, "strconv.") + " (width)", w, false})
+					continue
+				}
 			}
 			b, isK := ssax.ConstInt(c.Args()[idx])
 			sites = append(sites, site{fn, c.Instr.(ssa.Instruction), strings.TrimPrefix(full, "strconv."), b, isK})
@@ -52,7 +64,7 @@ func radixAgreement(ctx *core.Ctx, fns []*ssa.Function, pos func(ssa.Instruction
 		seen[name(s.fn)+s.what]++
 		construct := name(s.fn) + " › " + s.what + sprintf(" #%d uses the common radix", seen[name(s.fn)+s.what])
 		ctx.Check(s.ok && s.base == major, rule, construct, pos(s.in), sprintf("base %d", major),
-			sprintf("this conversion uses base %d (constant: %v) while the others use %d: ", s.base, s.ok, major)+detail)
+			sprintf("this conversion uses base/width %d (constant: %v) while the others use base %d, 64 bits (Atoi = signed machine int: numbers from 2^63 are refused): ", s.base, s.ok, major)+detail)
 	}
 }
 
